@@ -511,7 +511,7 @@ impl Check for C06 {
         ]
     }
     fn rule() -> &'static str {
-        "Each run draws: a pair (f,g) into a codomain of 0-8(10) elements with tables of length 0-12(16) (parallel in 10/12 of the runs, else differing in codomain or length; 1/5 chained so that long chains collapse), a surjection q (random, or the reference quotient of (f,g)), a label array and a finite function on q's domain that are constant on q's fibres and then, in half of the runs, damaged (one entry changed, wrong length), and general functions / sizes / index maps / small integers for the control clauses. On sim/control, vec and 1-4 perturbed schedules: coequalizer must be defined iff parallel and be a surjection whose fibres are exactly the classes generated by f(i) ~ g(i) (partition equality with a reference union-find, so 'merges too much' is caught); the universal map through q (given, or the coequalizer just computed) must be Some(u) with q;u = f iff f has q's domain as domain and is constant on fibres, None otherwise; control clauses (compose, compose with label arrays, identity, initial, terminal, constant, inj0/1, inject0/1, coproduct, tensor, twist, transpose, cumulative_sum, injections, is_injective, operator sugar) must equal their meaning on functions-as-Vec. Non-trivial iff f or q has a non-empty table; distinct = distinct (workload fingerprint, device decision fingerprint)."
+        "Each run draws: a pair (f,g) into a codomain of 0-8(10) elements with tables of length 0-12(16) (parallel in 10/12 of the runs, else differing in codomain or length; 1/5 chained so that long chains collapse), a surjection q (random, or the reference quotient of (f,g)), a label array and a finite function on q's domain that are constant on q's fibres and then, in half of the runs, damaged (one entry changed, wrong length), and general functions / sizes / index maps / small integers for the control clauses. On sim/control, vec and 1-4 perturbed schedules: coequalizer must be defined iff parallel and be a surjection whose fibres are exactly the classes generated by f(i) ~ g(i) (partition equality with a reference union-find, so 'merges too much' is caught); the universal map through q (given, or the coequalizer just computed) must be Some(u) with q;u = f iff f has q's domain as domain and is constant on fibres, None otherwise; control clauses (compose, compose with label arrays, identity, initial, terminal, constant, inj0/1, inject0/1, coproduct, tensor, twist, transpose, cumulative_sum, injections, is_injective, operator sugar, FiniteFunction::new accepting exactly the tables of functions, the SemifiniteArrow wrapper) must equal their meaning on functions-as-Vec. Non-trivial iff f or q has a non-empty table; distinct = distinct (workload fingerprint, device decision fingerprint). Five stress cases (chains in both directions and orders, a star and a random graph on 3*10^5 / 10^6 elements) run in child processes on a 2 MiB stack."
     }
     fn assumptions() -> Vec<&'static str> {
         vec![
